@@ -364,9 +364,12 @@ impl<T: Read + Seek> Iterator for PointCloudReaderSimple<'_, T> {
             return Some(Ok(point));
         }
 
-        // Refill queues with raw point values
-        if let Err(err) = self.queue_reader.advance() {
-            return Some(Err(err));
+        // Refill queues with raw point values.
+        // A single packet might not be enough to complete the next point!
+        while self.queue_reader.available() < 1 {
+            if let Err(err) = self.queue_reader.advance() {
+                return Some(Err(err));
+            }
         }
 
         // Read raw point values as simple point, add to buffer
